@@ -60,8 +60,11 @@ fn main() {
     v["replay_input"] = {"ctor": ck, "ghost_len": ln, "ops": seq, "src": src, "mlock_fail_from": k if mode == "c19" else None, "program": main}
     role = v["role"]
     detail = "; ".join("%s rc=%s %s" % (p, rc, o.strip()[-300:]) for p, rc, o in outs)
-    if "@" in role:   # a panic / arithmetic failure inside dryoc: native panic reproduces it
-        repro = any(rc == 101 or rc < 0 or rc == 134 for _, rc, _ in outs)
+    # a correct build prints "agree"; the process dying (panic 101, abort 134, fault signal) is itself the
+    # native manifestation of a protected-memory violation (e.g. wiping a region left read-only -> SIGSEGV)
+    died = any(rc == 101 or (rc < 0 and rc not in (-9, -100)) or rc == 134 for _, rc, _ in outs)
+    if "@" in role:   # a panic / arithmetic failure inside dryoc
+        repro = died
     else:
-        repro = any(rc == 1 and ("MISMATCH " + role) in o for _, rc, o in outs)
+        repro = died or any(rc == 1 and ("MISMATCH " + role) in o for _, rc, o in outs)
     return repro, detail
